@@ -233,11 +233,23 @@ def coq_prepare():
 def coq_make(targets, timeout=1800):
     """make -k the given .vo targets (full build, never -vos).  Returns (ok, log).
     A short global lock covers translator + Makefile + dependency regeneration; the compilation
-    itself only takes a lock per target set, so different properties build concurrently."""
+    itself only takes a lock per target set, so different properties build concurrently.
+    A translator failure only counts for the targets that depend on the module it could not generate."""
     with Lock("coq"):
         errs = regen()
         coq_prepare()
         run(["make", ".Makefile.d"], cwd=COQ, timeout=600)
+    closure = dep_closure(list(targets)) or []
+    mine = []
+    for e in errs:
+        m = re.match(r"(gen_consts|c2gallina)\((\w+)\)", e)
+        if not m:
+            mine.append(e)
+            continue
+        gen = "Gen/%s_%s.v" % ("Consts" if m.group(1) == "gen_consts" else "Funs", m.group(2))
+        if gen in closure or not closure:
+            mine.append(e)
+    errs = mine
     key = hashlib.sha1(" ".join(sorted(targets)).encode()).hexdigest()[:10]
     with Lock("coqmake_" + key):
         rc, out = run(["make", "-k", "-j%d" % max(4, NCPU // 2)] + list(targets), cwd=COQ, timeout=timeout)
